@@ -471,8 +471,62 @@ func c19Soak(c *Ctx, srv *server, seq []hostileReq, probe func()) {
 	}
 }
 
+// c19FailingOnly: a dedicated server instance that, from its start, sees nothing but failing requests at a low
+// rate for 21 s (two full 10-second windows of any periodic bookkeeping), and must then still answer probes.
+// It runs concurrently with the main phases on its own server, so it adds no wall time.
+func c19FailingOnly(c *Ctx, done chan<- struct{}) {
+	defer close(done)
+	r := c.R
+	srv, err := startServer(c, "VERIF_SERVER_BIN")
+	if err != nil {
+		r.Inconclusive("failing-only soak: server could not be started: " + err.Error())
+		return
+	}
+	defer srv.stop()
+	bodies := []hostileReq{
+		{Method: "POST", Path: "/totp/generate", Body: hs("{"), Note: "failing-only soak"},
+		{Method: "POST", Path: "/hotp/validate", Body: hs(`{"secret":"GEZDGNBVGY3TQOJQ","code":123456}`), Note: "failing-only soak"},
+		{Method: "GET", Path: "/nope", Note: "failing-only soak"},
+		{Method: "PUT", Path: "/otp/secret", Note: "failing-only soak"},
+		{Method: "POST", Path: "/ocra/generate", Body: hs(`{"secret":"GEZDGNBVGY3TQOJQ","raw_suite":"nope","input":{}}`), Note: "failing-only soak"},
+	}
+	t0 := time.Now()
+	n := 0
+	for time.Since(t0) < 21*time.Second {
+		k := bodies[n%len(bodies)]
+		judgeHostile(c, srv, k, false)
+		if n < len(bodies) {
+			// the soak is only meaningful if each of its requests is indeed answered with a failure status
+			var body []byte
+			if k.Body != "" {
+				body = unhex(k.Body)
+			}
+			if res := srv.do(k.Method, k.Path, body, false, 10*time.Second); res.Err == nil && res.Status < 400 {
+				r.Inconclusive(fmt.Sprintf("failing-only soak: %s %s is answered %d, not a failure status", k.Method, k.Path, res.Status))
+			}
+		}
+		n++
+		time.Sleep(100 * time.Millisecond)
+		if !srv.alive() {
+			break
+		}
+	}
+	r.Count("failing_only_soak_requests", n)
+	if !srv.alive() {
+		r.Violate("C19|server|died|failing-only-traffic", "the server process exited after a period in which every request failed", "none", "21 s of failing-only requests", "alive", "exited; see server log")
+		return
+	}
+	for _, k := range c18Cases(c, 30) {
+		judgeREST(c, srv, k)
+		r.Count("probes", 1)
+	}
+}
+
 func runC19(c *Ctx) {
 	r := c.R
+	soakDone := make(chan struct{})
+	go c19FailingOnly(c, soakDone)
+	defer func() { <-soakDone }()
 	srv, err := startServer(c, "VERIF_SERVER_BIN")
 	if err != nil {
 		r.Inconclusive("server could not be started: " + err.Error())
